@@ -15,6 +15,7 @@
       (NoUndefinedVariables + coerced variables).
 -/
 import PyGqlModel.Lemmas.DepthCollect
+import PyGqlModel.Lemmas.DepthAcyclic
 
 set_option linter.unusedVariables false
 set_option linter.unusedSimpArgs false
@@ -323,17 +324,6 @@ theorem wrap_inline_ge (doc doc' : Doc) (vars : Vars) (hv : Valid doc vars) (op 
 
 /-! #### named fragments -/
 
-mutual
-/-- the fragment name `nm` is not spread anywhere in the selection -/
-def freeSel (nm : String) : Sel → Bool
-  | .field _ _ _ sub => freeL nm sub
-  | .inline _ ss => freeL nm ss
-  | .spread n _ => n != nm
-def freeL (nm : String) : List Sel → Bool
-  | [] => true
-  | s :: ss => freeSel nm s && freeL nm ss
-end
-
 /-- `sels'` is `sels` with one contiguous block `body`, at any nesting level, replaced by a
     directive-free spread of the fragment `nm` -/
 inductive WrapSpread (nm : String) (body : List Sel) : List Sel → List Sel → Prop
@@ -452,18 +442,33 @@ private theorem wrapSpread_bound (vars : Vars) (nm : String) (body : List Sel) {
     have := ih hb.1.2.2
     exact ⟨⟨⟨hb.1.1, hb.1.2.1, this.1⟩, hb.2⟩, this.2⟩
 
+private theorem wrapSpread_free_body (nm : String) (body : List Sel) {s s' : List Sel}
+    (h : WrapSpread nm body s s') (hs : freeL nm s = true) : freeL nm body = true := by
+  induction h with
+  | here pre post =>
+    simp only [freeL_append, Bool.and_eq_true] at hs
+    exact hs.1.2
+  | field pre post a n d sub sub' _ ih =>
+    simp only [freeL_append, freeL_cons, freeSel, freeL, Bool.and_eq_true, Bool.and_true] at hs
+    exact ih hs.1.2
+  | inline pre post d ss ss' _ ih =>
+    simp only [freeL_append, freeL_cons, freeSel, freeL, Bool.and_eq_true, Bool.and_true] at hs
+    exact ih hs.1.2
+
 /-- **wrap_spread_ge** — moving selections of an operation (at the top or at any nesting level) into a
     new named fragment `nm` and spreading it never lowers the depth the rule measures.
-    `nm` is fresh: not spread in the operation or in any fragment body. The wrapped document must
-    still pass the decidable acyclicity check (it does when `nm` is fresh; exercised by the
-    correspondence, not proved here). -/
+    `nm` is fresh: not defined, and not spread in the operation or in any fragment body. (That the wrapped
+    document still passes the acyclicity check is proved: `Lemmas.acyclic_extend`.) -/
 theorem wrap_spread_ge (doc doc' : Doc) (vars : Vars) (hv : Valid doc vars) (op : Op) (hop : op ∈ doc.ops)
     (nm : String) (body sels' : List Sel) (hw : WrapSpread nm body op.sels sels')
-    (hfr : doc'.frags = doc.frags ++ [⟨nm, body⟩]) (ha' : acyclic doc'.frags = true)
+    (hfr : doc'.frags = doc.frags ++ [⟨nm, body⟩]) (hfresh : ∀ f ∈ doc.frags, f.name ≠ nm)
     (hfree : ∀ f ∈ doc.frags, freeL nm f.sels = true) (hfreeop : freeL nm op.sels = true)
     (hop' : (⟨op.name, sels'⟩ : Op) ∈ doc'.ops) :
     ∃ d d', depthFixed doc.fuel op doc.frags vars = .ok d ∧
       depthFixed doc'.fuel ⟨op.name, sels'⟩ doc'.frags vars = .ok d' ∧ d ≤ d' ∧ d' = depth doc vars op := by
+  have ha' : acyclic doc'.frags = true := by
+    rw [hfr]
+    exact acyclic_extend doc.frags nm body hv.1 hfree hfresh (wrapSpread_free_body nm body hw hfreeop)
   have hc := acyclic_consistent doc.frags hv.1
   have hc' := acyclic_consistent doc'.frags ha'
   have h1 := measured_eq_depth doc vars hv op hop doc.fuel (Nat.le_refl _)
